@@ -20,7 +20,7 @@ go test -vet=off -count=1 -run "$DRE" "./$DDIR/" 2>&1 | tail -4
 echo "== patched: existing tests of touched packages"
 for d in $(git diff --name-only | xargs -n1 dirname | sort -u); do rm -f "$DEMO.bak"; done
 mv "$DEMO" /tmp/seed_demo_hold.go
-for d in $(git diff --name-only | xargs -n1 dirname | sort -u); do go test -vet=off -count=1 "./$d/" 2>&1 | tail -1; done
+for d in $(git diff --name-only | xargs -n1 dirname | sort -u); do [ -n "${SEED_SKIP_PKGTESTS:-}" ] && continue; go test -vet=off -count=1 "./$d/" 2>&1 | tail -1; done
 git checkout -q -- .
 mkdir -p "/verif/seeded/$NAME"
 cp SEED/patch.diff "/verif/seeded/$NAME/patch.diff"
